@@ -20,8 +20,9 @@ CONSTANTS Ids         \* pool of item ids (naturals)
 Kinds == {"ItemCollection", "IRIs", "Collection", "CollectionPage",
           "OrderedCollection", "OrderedCollectionPage"}
 
-\* IRIs offers no Remove: its "item-list view" is a conversion to a fresh list
-HasRemove(k) == k # "IRIs"
+\* the statement demands Remove "through the collection's item-list view" of EVERY kind.  An IRI list has no Remove of its
+\* own and its item-list view is a fresh copy, so the call cannot reach it (recorded as a known finding, DESIGN.md 6.2)
+HasRemove(k) == TRUE
 
 Elems(s) == {s[i] : i \in 1..Len(s)}
 NoDup(s) == \A i, j \in 1..Len(s) : i # j => s[i] # s[j]
